@@ -68,7 +68,9 @@ INT_ATOMS = [
     ('Is[lambda v: v > 3]', 'lambda v: v > 3'),
     ('Is[lambda v: v % 2 == 0]', 'lambda v: v % 2 == 0'),
     ('IsEqual[5]', 'lambda v: v == 5'),
+    ('IsEqual[False]', 'lambda v: v == False'),
     ('IsEqual[0]', 'lambda v: v == 0'),
+    ('~IsEqual[True]', 'lambda v: not (v == True)'),
     ('IsInstance[bool]', 'lambda v: isinstance(v, bool)'),
 ]
 OBJ_ATOMS = [
